@@ -17,6 +17,9 @@ import Martian.SchedProgress
 import Proofs.SchedProgress
 import Proofs.SchedRestart
 
+/-! ### definitional unfoldings (documentation of the model, not guarantees)
+The theorems whose docstring starts with DEFINITIONAL UNFOLDING (restart_preserves_done, crash_keeps_disk, wipedAtLoad_spec) restate a guard
+or a definition of the model; they stay where later theorems use them and are not cited as guarantees. -/
 namespace Props.C05
 open Martian.Sched
 
@@ -32,13 +35,12 @@ theorem complete_not_reset {g : List NodeInfo} {s : State} {o : Obj} (hr : Reach
   unfold resetOk at hro
   simp only [reach_full hr, Bool.false_eq_true, if_false, Bool.and_eq_true, Bool.or_eq_true,
     beq_iff_eq] at hro
-  rcases hro.2.2 with ((h | h) | h) | h
+  rcases hro.2.2 with ((h | h) | ⟨h, _⟩) | h
   · rw [hc] at h; cases h
   · rw [hc] at h; cases h
   · rw [hc] at h; cases h
-  · have := ((reach_objsInv hr o).jj hj h).2.1
-    have hc' := (metaState_complete hc).2.2
-    rw [this] at hc'; cases hc'
+  · -- `restartQueuedLocal` (as repaired by 23063ab): a complete job only loses `_queued_locally`
+    rw [hc] at h; simp at h
 
 /-- finished work stays on disk: whatever event happens next, a job object whose
 directory state is complete keeps its `_complete` file -/
@@ -49,14 +51,14 @@ theorem complete_kept_on_disk {g : List NodeInfo} {s : State} {e : Ev} {o : Obj}
   intro he; subst he
   exact complete_not_reset hr hj hen hc
 
-/-- `restart_preserves_done`: after `crash; restart` mrp's view of every object
+/-- DEFINITIONAL UNFOLDING (documentation of the model / of a guard, not a guarantee). `restart_preserves_done`: after `crash; restart` mrp's view of every object
 is exactly the state of its directory — in particular everything complete on
 disk is seen complete (and is therefore not submitted again, C03). -/
 theorem restart_preserves_done {s : State} (o : Obj) :
     (apply (apply s .crash) .restart).st o = s.dst o := by
   simp [State.st, State.dst, apply_m, reload]
 
-/-- a crash itself changes nothing on disk -/
+/-- DEFINITIONAL UNFOLDING (documentation of the model / of a guard, not a guarantee). a crash itself changes nothing on disk -/
 theorem crash_keeps_disk {s : State} (o : Obj) : ((apply s .crash).m o).disk = (s.m o).disk := by
   simp [apply_m]
 
@@ -93,7 +95,7 @@ theorem fullreset_only_wiped_nodes {g : List NodeInfo} {s : State} {o : Obj}
     List.contains_eq_mem, decide_eq_true_eq] at h
   exact h
 
-/-- … where that set is computed by `restart` from the directory contents -/
+/-- DEFINITIONAL UNFOLDING (documentation of the model / of a guard, not a guarantee). … where that set is computed by `restart` from the directory contents -/
 theorem wipedAtLoad_spec (s : State) (n : Nat) :
     n ∈ (apply s .restart).wipedAtLoad ↔
       n < s.nodes.length ∧
@@ -119,31 +121,42 @@ theorem fullreset_wipes_finished_work :
     | .ok s => s.dst ⟨0, 0, .chunk 0⟩ == some .complete && enabled s (.reset ⟨0, 0, .chunk 0⟩)
     | .error _ => false) = true := by decide
 
-/-! ### the continuation after a restart completes (both reset modes) -/
+/-! ### the continuation after a restart completes (both reset modes)
+
+`s.alive` (ghost) = the job objects whose submitted job has neither ended nor died: `launch` adds,
+`jobend` / `silentfail` / `killed` / `reset` remove; `joblog` and `jobend` need it.  `killed o` is
+the death of a job without a trace (it dies with mrp, or the scheduler loses it); a `reset` of a
+job whose directory says running is only permitted when the job is dead (`restartLocal`'s pid
+test).  `AliveInv s` = every job that is submitted and has no `_complete` on disk is alive — i.e.
+EVERY JOB THAT DIED HAS BEEN RESET.  That is exactly what `RestartLocalJobs` is for; a restart
+that leaves a dead job un-reset wedges the pipestance (`dead_unreset_job_wedges`). -/
 
 /-- `restart_completes` (default reset mode): take ANY reachable state `s0` without failure
 markers on disk — in particular the state right after any accepted history followed by
 `crash; restart`, whatever was in flight — and ANY continuation from it that contains no
-failure event, finitely many interruptions (`crash`/`restart`/`reset`) and fork-structure
-events, leaves mrp up after the last of them, and is fair: it reaches a finished
-pipestance and stays there.  (Vocabulary: Props/C03 header.) -/
+failure event, finitely many interruptions (`crash`/`restart`/`reset`/`killed`) and
+fork-structure events, after the last of which mrp is up and every job that died has been
+reset (`AliveInv`: the resets performed may be ANY subset of the permitted ones that contains
+the dead running/queued jobs), and that is fair: it reaches a finished pipestance and stays
+there.  (Vocabulary: Props/C03 header.) -/
 theorem restart_completes {g : List NodeInfo} {s0 : State} {σ : Nat → State} {es : Nat → Ev}
     (hr : Reach g s0) (hclean : CleanInv s0) (hac : Acyclic g) (hrun : Run s0 σ es)
     (hnf : ∀ i, (es i).failing = false) {K : Nat}
     (hK : ∀ i, K ≤ i → (es i).structural (σ i) = false) (hup : (σ K).phase ≠ .crashed)
-    (hfair : Fair σ) : ∃ M, K ≤ M ∧ ∀ j, M ≤ j → Finished (σ j) :=
+    (halive : AliveInv (σ K)) (hfair : Fair σ) : ∃ M, K ≤ M ∧ ∀ j, M ≤ j → Finished (σ j) :=
   interrupted_run_finishes hrun (reach_liveInv hr hclean) (by rw [reach_nodes hr]; exact hac)
-    hnf hK hup hfair
+    hnf hK hup halive hfair
 
 /-- the same in `FullStageReset` mode: wiping whole Running/Failed nodes at restart (any
-subset of their objects, in any order) never wedges the pipestance -/
+subset of their objects, in any order, as long as no dead job is left behind) never wedges
+the pipestance -/
 theorem fullreset_restart_completes {g : List NodeInfo} {s0 : State} {σ : Nat → State}
     {es : Nat → Ev} (hr : ReachFull g s0) (hclean : CleanInv s0) (hac : Acyclic g)
     (hrun : Run s0 σ es) (hnf : ∀ i, (es i).failing = false) {K : Nat}
     (hK : ∀ i, K ≤ i → (es i).structural (σ i) = false) (hup : (σ K).phase ≠ .crashed)
-    (hfair : Fair σ) : ∃ M, K ≤ M ∧ ∀ j, M ≤ j → Finished (σ j) :=
+    (halive : AliveInv (σ K)) (hfair : Fair σ) : ∃ M, K ≤ M ∧ ∀ j, M ≤ j → Finished (σ j) :=
   interrupted_run_finishes hrun (reachFull_liveInv hr hclean)
-    (by rw [reachFull_nodes hr]; exact hac) hnf hK hup hfair
+    (by rw [reachFull_nodes hr]; exact hac) hnf hK hup halive hfair
 
 /-- the hypothesis `CleanInv` is kept by every event that is not a failure event
 (interruptions and resets included), in either mode: a history without failure events
@@ -152,34 +165,60 @@ theorem no_failure_keeps_clean {s : State} {e : Ev} (hen : enabled s e = true)
     (hnf : e.failing = false) (h : CleanInv s) : CleanInv (apply s e) :=
   cleanInv_step hen hnf h
 
-/-- `restart_completes_same` (design §4 C05; default reset mode): take two runs of the same
-acyclic graph from its initial state, both fair, both without failure events, both with
-finitely many interruptions and fork-structure events and with mrp up after the last one —
-say, one in which mrp is killed after arbitrary prefixes (any number of `crash`/`restart`
-with any of the resets `Pipestance.Reset`/`RestartLocalJobs` may perform) and an
-uninterrupted one.  Both finish, and from then on, whenever the two agree on what the
-ENVIRONMENT chose (fork sets, chunk counts, which forks were disabled — C01's
-schedule-freedom says the data determines these), the directory state of EVERY object of
-every stage fork is the same in both: the interrupted run ends with the same per-job
-outcome set.  (`Ev.benign`: no failure event, and chunk counts are not redefined while
-re-attaching — the model keeps them across `restart`.) -/
-theorem restart_completes_same {g : List NodeInfo} (hac : Acyclic g)
+/-- `AliveInv` is kept by every event of a run without failures and interruptions, and
+re-established for an object by its reset -/
+theorem no_interruption_keeps_alive {s : State} {e : Ev} (hen : enabled s e = true)
+    (hff : e.failureFree = true) (h : AliveInv s) : AliveInv (apply s e) :=
+  aliveInv_step hen hff h
+
+/-- Negative witness: the split was running when mrp was killed and died with it; the restart
+does NOT reset it.  The pipestance is not finished and no event of the scheduler/job/journal
+alphabet can ever happen again: resetting dead jobs is necessary. -/
+def hDead : List Ev :=
+  [.fork 0 0, .nodestate 0 .running, .refresh, .launch ⟨0, 0, .split⟩, .joblog ⟨0, 0, .split⟩,
+   .crash, .killed ⟨0, 0, .split⟩, .restart, .refresh]
+def sDead : State := prefixState (init [{ kind := .splitstage, pre := [] }]) hDead 9
+
+theorem dead_unreset_job_wedges :
+    ¬ Finished sDead ∧ (∀ e, ¬ Progress sDead e) ∧ enabled sDead (.jobend ⟨0, 0, .split⟩ .complete) = false ∧
+    ¬ AliveInv sDead := by
+  refine ⟨fun h => ?_, no_progress_of_quiescent ?_ (by decide), by decide, fun h => ?_⟩
+  · exact absurd (h.2 0 (by decide)).1 (by decide)
+  · exact reach_objsInv (run_reach (run_of_list _ hDead (by decide)) 9)
+  · have := h 0 0 .split (by simp) (by decide) (by decide)
+    exact absurd this (by decide)
+
+/-- `restart_completes_same_completion_set` (default reset mode; formerly `restart_completes_same`):
+take two runs of the same acyclic graph from its initial state, both fair, both without
+failure events, both with finitely many interruptions and fork-structure events, with mrp up
+and every dead job reset after the last one — say, one in which mrp is killed after arbitrary
+prefixes and an uninterrupted one.  Both finish, and from then on, whenever the two agree on
+what the ENVIRONMENT chose (fork sets, chunk counts, which forks were disabled), the DIRECTORY
+STATE (which sentinels: complete / nothing) of every object of every stage fork is the same
+in both: the interrupted run ends with the same set of completed job directories.
+What this does NOT say: the model has no output values, `_outs` or files; that equal choices
+and equal completion sets give equal output VALUES is C01's schedule-freedom (`den_schedule_free`:
+the value of every call is a function of the resolved arguments) together with the harness's
+comparison of the real top-level outputs, not a consequence of this theorem; and the premise
+`SameChoices` is assumed, not derived (the data determines the choices).  (`Ev.benign`: no
+failure event, and chunk counts are not redefined while re-attaching.) -/
+theorem restart_completes_same_completion_set {g : List NodeInfo} (hac : Acyclic g)
     {σ : Nat → State} {es : Nat → Ev} (hrun : Run (init g) σ es)
     (hb : ∀ i, (es i).benign (σ i) = true) {K : Nat}
     (hK : ∀ i, K ≤ i → (es i).structural (σ i) = false) (hup : (σ K).phase ≠ .crashed)
-    (hfair : Fair σ)
+    (halive : AliveInv (σ K)) (hfair : Fair σ)
     {σ' : Nat → State} {es' : Nat → Ev} (hrun' : Run (init g) σ' es')
     (hb' : ∀ i, (es' i).benign (σ' i) = true) {K' : Nat}
     (hK' : ∀ i, K' ≤ i → (es' i).structural (σ' i) = false) (hup' : (σ' K').phase ≠ .crashed)
-    (hfair' : Fair σ') :
+    (halive' : AliveInv (σ' K')) (hfair' : Fair σ') :
     ∃ M, ∀ j, M ≤ j → Finished (σ j) ∧ Finished (σ' j) ∧
       (SameChoices (σ j) (σ' j) →
         ∀ n f r, n < g.length → f ∈ (σ j).forksOf n → (σ j).kind n ≠ .pipeline →
           (σ j).dst ⟨n, f, r⟩ = (σ' j).dst ⟨n, f, r⟩) := by
   have hnf := fun i => benign_nf (hb i)
   have hnf' := fun i => benign_nf (hb' i)
-  obtain ⟨M, _, hM⟩ := interrupted_run_finishes hrun (liveInv_init g) hac hnf hK hup hfair
-  obtain ⟨M', _, hM'⟩ := interrupted_run_finishes hrun' (liveInv_init g) hac hnf' hK' hup' hfair'
+  obtain ⟨M, _, hM⟩ := interrupted_run_finishes hrun (liveInv_init g) hac hnf hK hup halive hfair
+  obtain ⟨M', _, hM'⟩ := interrupted_run_finishes hrun' (liveInv_init g) hac hnf' hK' hup' halive' hfair'
   have hl := run_liveInv hrun (liveInv_init g) hnf
   have hl' := run_liveInv hrun' (liveInv_init g) hnf'
   refine ⟨max M M', fun j hj => ⟨hM j (by omega), hM' j (by omega), ?_⟩⟩
@@ -278,6 +317,9 @@ example : ∀ i, 7 ≤ i → (esI i).structural (σI i) = false := by
 
 example : (σI 7).phase ≠ .crashed := by decide
 
+/-- every job that died was reset: the split was only queued when mrp died, and the restart reset it -/
+example : AliveInv (σI 7) := aliveInv_of_check (by decide)
+
 theorem σI_finished (i : Nat) (h : hI.length ≤ i) : Finished (σI i) := by
   have : σI i = σI hI.length := by simp [σI, prefixState, List.take_of_length_le h]
   rw [this]
@@ -309,5 +351,85 @@ example : SameChoices (σI 18) (σU 13) := by decide
 example : (σI 18).dst ⟨0, 0, .split⟩ = (σU 13).dst ⟨0, 0, .split⟩ ∧
     (σI 18).dst ⟨0, 0, .join⟩ = some .complete ∧ (σI 18).dst ⟨0, 0, .chunk 0⟩ = none ∧
     launchCount (σI 18) ⟨0, 0, .split⟩ = 2 ∧ launchCount (σU 13) ⟨0, 0, .split⟩ = 1 := by decide
+
+/-! A larger pair: a stage, then a splitting stage with two forks (one disabled at run time) and two
+chunks; mrp is killed while chunk 1 is running and chunk 0 has finished unnoticed; chunk 1 dies
+with mrp, the restart resets it (and only it), the new incarnation reads chunk 0's `_complete`
+from the directory and re-runs chunk 1. -/
+def g2c : List NodeInfo := [{ kind := .stage, pre := [] }, { kind := .splitstage, pre := [0] }]
+
+def hPre : List Ev :=
+  [.fork 0 0, .fork 1 0, .fork 1 1, .nodestate 0 .running, .refresh,
+   .W ⟨0, 0, .split⟩ .complete, .mkchunks 0 0 1, .launch ⟨0, 0, .chunk 0⟩,
+   .joblog ⟨0, 0, .chunk 0⟩, .jobend ⟨0, 0, .chunk 0⟩ .complete, .R ⟨0, 0, .chunk 0⟩ .complete,
+   .W ⟨0, 0, .join⟩ .complete, .W ⟨0, 0, .fork⟩ .complete, .nodestate 0 .complete,
+   .nodestate 1 .running, .W ⟨1, 1, .fork⟩ .disabled,
+   .launch ⟨1, 0, .split⟩, .joblog ⟨1, 0, .split⟩, .jobend ⟨1, 0, .split⟩ .complete,
+   .R ⟨1, 0, .split⟩ .complete, .mkchunks 1 0 2, .launch ⟨1, 0, .chunk 0⟩, .launch ⟨1, 0, .chunk 1⟩,
+   .joblog ⟨1, 0, .chunk 0⟩, .joblog ⟨1, 0, .chunk 1⟩, .jobend ⟨1, 0, .chunk 0⟩ .complete]
+
+def hTail : List Ev :=
+  [.launch ⟨1, 0, .join⟩, .joblog ⟨1, 0, .join⟩, .jobend ⟨1, 0, .join⟩ .complete,
+   .R ⟨1, 0, .join⟩ .complete, .W ⟨1, 0, .fork⟩ .complete, .nodestate 1 .complete]
+
+def hI2 : List Ev :=
+  hPre ++ [.crash, .killed ⟨1, 0, .chunk 1⟩, .restart, .reset ⟨1, 0, .chunk 1⟩, .refresh,
+    .launch ⟨1, 0, .chunk 1⟩, .joblog ⟨1, 0, .chunk 1⟩, .jobend ⟨1, 0, .chunk 1⟩ .complete,
+    .R ⟨1, 0, .chunk 1⟩ .complete] ++ hTail
+
+def hU2 : List Ev :=
+  hPre ++ [.R ⟨1, 0, .chunk 0⟩ .complete, .jobend ⟨1, 0, .chunk 1⟩ .complete,
+    .R ⟨1, 0, .chunk 1⟩ .complete] ++ hTail
+
+def σI2 : Nat → State := prefixState (init g2c) hI2
+def esI2 : Nat → Ev := fun i => hI2.getD i .stepend
+def σU2 : Nat → State := prefixState (init g2c) hU2
+
+example : hI2.length = 41 ∧ hU2.length = 35 := by decide
+example : Acyclic g2c := topoSorted_acyclic (by decide)
+example : Run (init g2c) σI2 esI2 := run_of_list _ _ (by decide)
+example : Run (init g2c) σU2 (fun i => hU2.getD i .stepend) := run_of_list _ _ (by decide)
+example : ∀ i, (esI2 i).benign (σI2 i) = true := by
+  intro i
+  by_cases h : i < hI2.length
+  · revert i; decide
+  · have : hI2[i]? = none := by simp; omega
+    simp [esI2, List.getD, this, Ev.benign, Ev.failing]
+/-- the last interruption is the reset (index 29) -/
+example : ∀ i, 30 ≤ i → (esI2 i).structural (σI2 i) = false := by
+  intro i h1
+  by_cases h : i < hI2.length
+  · have : ∀ i, i < hI2.length → 30 ≤ i → (esI2 i).structural (σI2 i) = false := by decide
+    exact this i h h1
+  · have : hI2[i]? = none := by simp; omega
+    simp [esI2, List.getD, this, Ev.structural]
+example : (σI2 30).phase ≠ .crashed ∧ AliveInv (σI2 30) := ⟨by decide, aliveInv_of_check (by decide)⟩
+/-- without the reset the dead chunk would be left behind: `AliveInv` fails right after the restart -/
+example : ¬ AliveInv (σI2 29) := fun h =>
+  absurd (h 1 0 (.chunk 1) (by simp) (by decide) (by decide)) (by decide)
+/-- both end finished with the same choices and the same directory states; the interrupted run
+submitted chunk 1 twice and everything else once -/
+example : SameChoices (σI2 41) (σU2 35) := by decide
+example : (σI2 41).dst ⟨1, 0, .chunk 1⟩ = (σU2 35).dst ⟨1, 0, .chunk 1⟩ ∧
+    (σI2 41).dst ⟨1, 0, .join⟩ = some .complete ∧ (σI2 41).dst ⟨1, 1, .split⟩ = none ∧
+    launchCount (σI2 41) ⟨1, 0, .chunk 1⟩ = 2 ∧ launchCount (σI2 41) ⟨1, 0, .chunk 0⟩ = 1 ∧
+    (σI2 41).resets = [(⟨1, 0, .chunk 1⟩, 1)] := by decide
+
+/-! `FullStageReset` mode: the same stage graph; mrp is killed while node 1 is Running; every object
+of node 1 may be wiped (here: the finished chunk 0, the dead chunk 1 and the split), node 0's
+finished work may not. -/
+def hF2 : List Ev :=
+  hPre ++ [.crash, .killed ⟨1, 0, .chunk 1⟩, .restart, .reset ⟨1, 0, .chunk 0⟩, .reset ⟨1, 0, .chunk 1⟩,
+    .reset ⟨1, 0, .split⟩, .mkchunks 1 0 0]
+def sF2 : State := prefixState (initFull g2c) hF2 hF2.length
+
+example : (match replay (initFull g2c) hF2 with | .ok _ => true | .error _ => false) = true := by decide
+/-- hypotheses and conclusions of `fullreset_only_wiped_nodes` / `fullreset_restart_completes` at
+this reachable `ReachFull` state: node 1 is to be wiped, node 0 is not; no failure marker; no
+dead job left; mrp is up; and the wiped fork is `ready` again -/
+example : sF2.wipedAtLoad = [1] ∧ enabled sF2 (.reset ⟨0, 0, .chunk 0⟩) = false ∧
+    enabled sF2 (.reset ⟨1, 0, .join⟩) = true ∧ sF2.phase ≠ .crashed ∧
+    forkState sF2 1 0 = .ready := by decide
+example : AliveInv sF2 := aliveInv_of_check (by decide)
 
 end Props.C05
